@@ -316,3 +316,20 @@ func quant16ref(v float32) uint16 {
 	}
 	return uint16(v*65535 + 0.5)
 }
+
+func colourEncode(space string, r, g, b, a float32) (color.NRGBA, color.RGBA, color.RGBA64) {
+	switch space {
+	case "srgb":
+		c := srgb.ColorFromLinear(r, g, b)
+		return c.ToNRGBA(a), c.ToRGBA(a), c.ToRGBA64(a)
+	case "adobergb":
+		c := adobergb.ColorFromLinear(r, g, b)
+		return c.ToNRGBA(a), c.ToRGBA(a), c.ToRGBA64(a)
+	case "prophotorgb":
+		c := prophotorgb.ColorFromLinear(r, g, b)
+		return c.ToNRGBA(a), c.ToRGBA(a), c.ToRGBA64(a)
+	default:
+		c := displayp3.ColorFromLinear(r, g, b)
+		return c.ToNRGBA(a), c.ToRGBA(a), c.ToRGBA64(a)
+	}
+}
